@@ -273,6 +273,19 @@ def invalid_templates(tier="quick"):
             o["expect_error"] = True
         T.append(scenario("c11/invalid/statement_for_edge_bound_to_other_file/%s" % mode, "c11-invalid", [Variant("v0", st)],
                           files=files, ops=ops, init=[], depth=1, tags=["dyndep", "dyndep-invalid"]))
+    # an invalid dyndep file that is up to date (a valid one was built first, then its content was replaced), loaded when a
+    # *phony* alias in front of its producer completes: the error surfaces in the branch of the main loop that finishes
+    # phony statements
+    for vname, text in variants[:6] + [v for v in variants if v[0] in ("truncated@20", "empty", "bad_version")]:
+        st = [Stmt("prep", ex=["p.in"]), Stmt("al", ex=["prep"], phony=True), Stmt("dd", ex=["dd.in"], oo=["al"], copy=True)] + base_stmts()[1:]
+        bad = ninja_op(j=1)
+        bad["expect_error"] = True
+        bad2 = ninja_op(j=2, targets=["out"])
+        bad2["expect_error"] = True
+        ops = [ninja_op(j=2), {"op": "write", "path": "dd", "content": text, "label": "dd:=invalid text (%s)" % vname},
+               {"op": "rm", "path": "prep", "label": "rm prep"}, bad, bad2]
+        T.append(scenario("c11/invalid/%s/behind_phony" % vname, "c11-invalid", [Variant("v0", st)], files={"dd.in": good}, ops=ops,
+                          init=[0, 1, 2], depth=1, tags=["dyndep", "dyndep-invalid", "phony"]))
     # missing dyndep file with no rule to make it
     st = base_stmts()[1:]
     ops = [ninja_op(j=2)]
